@@ -207,6 +207,7 @@ class C20(Check):
         for name in ("fz_deck", "fz_eclfile"):
             out[name] = build.ensure_single(name, os.path.join(FUZZ, name + ".cpp"), kind="san", fuzzer=True)
         build.ensure_probe("san", "deck")
+        build.ensure_probe("plain", "deck")      # answers "hang or only slow under the sanitizer?"
         return out
 
     def prepare(self, tier):
@@ -248,6 +249,7 @@ class C20(Check):
             from checks.c20_token import C20Token
             case = json.load(open(replay))["case"]
             build.ensure_probe("san", "deck")
+            build.ensure_probe("plain", "deck")      # answers "hang or only slow under the sanitizer?"
             fails, v = runner.confirm(C20Token(), case, [], 1)
             if fails:
                 print("VIOLATION property=%s replay=%s" % (pid, replay))
